@@ -2,7 +2,7 @@ import BreezyVerif.Model.C10
 /-
 C01 — a commit records exactly the selected working-tree state.
 
-Three small executable models, all total:
+Three small executable models, all total; pending merges are a flag (`commitModelM`):
 
 * **inventory trees (bzr formats), id space** — the tree model of `Model/C10.lean`
   (file id ↦ entry(parent, name, node)).  `breezy/commit.py: Commit.commit`
@@ -27,9 +27,19 @@ Three small executable models, all total:
   pairs come from dulwich's content-based detector and are an input here).
 
 * **pipeline with a fault** (`Commit.commit`: `try … except: builder.abort()`,
-  then `_update_branches`, `update_basis_by_delta`): stages in program order;
-  an exception raised by stage `s` aborts the write group iff `s` is inside the
-  `try` block.
+  then `_update_branches`, `unversion`, `update_basis_by_delta`): a program of
+  operations over a repository with a write group (pending texts, inventory,
+  revision; `commit_write_group` publishes them at once, `abort_write_group`
+  discards them), the branch tip, the master branch of a bound branch and the
+  tree's basis pointer; a fault is an exception raised by any operation, before
+  or after its effect; it aborts the write group iff the operation is inside
+  the `try` block.
+
+The change stream is the one of `InterInventoryTree` with the closure loop as
+repaired by /repo e6ca8fc (`C10.iterChangesG true`), which always terminates
+(`commit_never_fuel`); the loop as found did not terminate on every well-formed
+pair of trees (`closure_diverges_witness`).  The real commit uses the compiled
+dirstate comparison, which is exercised, not modelled.
 -/
 namespace BreezyVerif.C01
 open BreezyVerif.C10
@@ -57,9 +67,12 @@ def keepChange (excl : List Path) (c : Change) : Bool :=
   !(insideOpt excl c.srcPath || insideOpt excl c.tgtPath)
 
 /-- `work_tree.iter_changes(basis_tree, specific_files=…)` (changed records only,
-`require_versioned=True`) -/
+`require_versioned=True`): the `InterInventoryTree` comparison with the
+delta-consistency closure as repaired by /repo e6ca8fc (`iterChangesG true`:
+every id is examined at most once, so the closure always terminates —
+`commit_never_fuel`; the loop as found did not, `closure_diverges_witness`) -/
 def reportedChanges (basis : Tree) (w : WT) (sel : Option (List Path)) : Except C10.Err (List Change) :=
-  iterChanges .generic basis w.inv sel false true
+  iterChangesG true .generic basis w.inv sel false true
 
 /-- the ids that reach `record_iter_changes` -/
 def commitIds (excl : List Path) (cs : List Change) : List Id :=
@@ -78,7 +91,8 @@ inductive CErr where
   | pathsNotVersioned (ps : List Path)
   | inconsistentDelta
   | rootMissing
-  | fuel
+  | fuel                  -- the delta-consistency closure ran out of fuel (unreachable: `commit_never_fuel`)
+  | selectedFileMerge     -- CannotCommitSelectedFileMerge
   deriving DecidableEq, Repr
 
 structure Result where
@@ -142,6 +156,14 @@ def commitModel (v : Validation) (basis : Tree) (w : WT) (sel : Option (List Pat
   | .error .fuel => .error .fuel
   | .ok cs => commitFrom v basis w (commitIds excl cs)
 
+/-- `Commit.commit` with pending merges (`len(self.parents) > 1`): a selection or
+an exclusion is refused before anything is collected; a full commit records the
+working tree as usual (the extra parents only matter for the per-file graph, C02) -/
+def commitModelM (merges : Bool) (v : Validation) (basis : Tree) (w : WT) (sel : Option (List Path))
+    (excl : List Path) : Except CErr Result :=
+  if merges && (sel.isSome || !excl.isEmpty) then .error .selectedFileMerge
+  else commitModel v basis w sel excl
+
 /-! ### git trees (path space) -/
 
 /-- files and symlinks by path; first match wins; directories are implied -/
@@ -188,66 +210,100 @@ def gitCommitTree (basis wt : GTree) (cs : List GChange) (sel : Option (List Pat
   (written.filterMap fun p => (glookup wt p).map fun n => (p, n))
     ++ basis.filter fun x => !written.contains x.1 && !deleted.contains x.1
 
-/-! ### the pipeline with a fault -/
+/-! ### the pipeline with a fault
 
-/-- the points of `Commit.commit` at which an exception can be raised, in
-program order -/
-inductive Stage where
-  | collect        -- iter_changes / record_iter_changes (texts go into the write group)
-  | finishInv      -- builder.finish_inventory (inventory goes into the write group)
-  | message        -- message_callback
-  | builderCommit  -- builder.commit: revision added, write group committed
-  | preHook        -- _update_branches → _process_pre_hooks
-  | setTip         -- branch.set_last_revision_info
-  | updateBasis    -- work_tree.unversion / update_basis_by_delta
-  | postHook       -- _process_post_hooks
-  deriving DecidableEq, Repr
+`Commit.commit` as a program over a repository with a write group, a branch
+tip, an optional master branch (bound branch / heavyweight checkout) and the
+working tree's basis pointer:
 
-def Stage.idx : Stage → Nat
-  | .collect => 0 | .finishInv => 1 | .message => 2 | .builderCommit => 3
-  | .preHook => 4 | .setTip => 5 | .updateBasis => 6 | .postHook => 7
-
-def stages : List Stage :=
-  [.collect, .finishInv, .message, .builderCommit, .preHook, .setTip, .updateBasis, .postHook]
+    get_commit_builder                      startGroup
+    try:
+      record_iter_changes                   addText k   (one per recorded text)
+      _check_pointless                      checkPointless
+      builder.finish_inventory              addInv
+      message_callback                      message
+      builder.commit                        addRev; commitGroup   (everything pending becomes visible)
+    except: builder.abort(); raise          abortGroup
+    _update_branches                        preHook; [masterImport]; setTip; [mergeTags]
+    work_tree.unversion(deleted_paths)      unversion
+    update_basis_by_delta                   updateBasis
+    _process_post_hooks                     postHook
+-/
 
 abbrev Rev := String
+abbrev Key := String
 
 structure PState where
   revs : List Rev          -- revisions visible in the repository
-  pending : List Rev       -- revisions in the open write group
+  invs : List Rev          -- inventories visible
+  texts : List Key         -- text keys visible
+  pRevs : List Rev         -- … in the open write group
+  pInvs : List Rev
+  pTexts : List Key
   inGroup : Bool
   tip : Option Rev         -- branch tip
+  mrevs : List Rev         -- revisions in the master branch's repository (bound branches)
+  mtip : Option Rev        -- master branch tip
   basis : Option Rev       -- working tree basis
   deriving DecidableEq, Repr
 
-/-- what the property observes -/
-def visible (s : PState) : List Rev × Option Rev := (s.revs, s.tip)
+/-- no write group open, nothing pending -/
+def PState.clean (s : PState) : Bool := !s.inGroup && s.pRevs.isEmpty && s.pInvs.isEmpty && s.pTexts.isEmpty
 
-/-- the effect of a stage that completes -/
-def stageEffect (new : Rev) (s : PState) : Stage → PState
-  | .collect | .finishInv | .message | .preHook | .postHook => s
-  | .builderCommit => { s with revs := s.revs ++ s.pending ++ [new], pending := [], inGroup := false }
+inductive Op where
+  | startGroup | addText (k : Key) | checkPointless | addInv | message | addRev | commitGroup
+  | preHook | masterImport | setTip | mergeTags | unversion | updateBasis | postHook
+  deriving DecidableEq, Repr
+
+/-- the effect of an operation that completes -/
+def effect (new : Rev) (s : PState) : Op → PState
+  | .startGroup => { s with inGroup := true }
+  | .addText k => { s with pTexts := s.pTexts ++ [k] }
+  | .addInv => { s with pInvs := s.pInvs ++ [new] }
+  | .addRev => { s with pRevs := s.pRevs ++ [new] }
+  | .commitGroup => { s with revs := s.revs ++ s.pRevs, invs := s.invs ++ s.pInvs, texts := s.texts ++ s.pTexts,
+                             pRevs := [], pInvs := [], pTexts := [], inGroup := false }
+  | .masterImport => { s with mrevs := s.mrevs ++ [new], mtip := some new }
   | .setTip => { s with tip := some new }
   | .updateBasis => { s with basis := some new }
-
-/-- `except Exception: self.builder.abort(); raise` covers the stages up to and
-including `builder.commit` -/
-def insideTry (st : Stage) : Bool := st.idx ≤ Stage.builderCommit.idx
+  | .checkPointless | .message | .preHook | .mergeTags | .unversion | .postHook => s
 
 /-- `abort_write_group` -/
-def abortGroup (s : PState) : PState := { s with pending := [], inGroup := false }
+def abortGroup (s : PState) : PState := { s with pRevs := [], pInvs := [], pTexts := [], inGroup := false }
 
-/-- run the remaining stages; `fault = some st` raises when `st` is reached
-(before its effect).  Returns the final state and whether the commit raised. -/
-def runStages (new : Rev) (fault : Option Stage) : List Stage → PState → PState × Bool
-  | [], s => (s, false)
-  | st :: rest, s =>
-    if fault = some st then
-      (if insideTry st then abortGroup s else s, true)
-    else runStages new fault rest (stageEffect new s st)
+/-- the operations inside the `try` block before the write group is committed -/
+def groupOps (texts : List Key) : List Op := texts.map .addText ++ [.checkPointless, .addInv, .message, .addRev]
 
-/-- `get_commit_builder` starts the write group, then the stages run -/
-def runCommit (new : Rev) (fault : Option Stage) (s : PState) : PState × Bool :=
-  runStages new fault stages { s with inGroup := true, pending := [] }
+/-- everything after `builder.commit` -/
+def lateOps (bound : Bool) : List Op :=
+  [.preHook] ++ (if bound then [.masterImport] else []) ++ [.setTip] ++ (if bound then [.mergeTags] else [])
+    ++ [.unversion, .updateBasis, .postHook]
+
+def program (texts : List Key) (bound : Bool) : List Op :=
+  .startGroup :: (groupOps texts ++ .commitGroup :: lateOps bound)
+
+/-- a fault: the operation at index `k` of the program raises, before its effect
+or (`after`) when its effect is already there -/
+structure Fault where
+  k : Nat
+  after : Bool
+  deriving DecidableEq, Repr
+
+def Fault.executed (f : Fault) : Nat := if f.after then f.k + 1 else f.k
+
+/-- is the operation at index `k` inside the `try … except: builder.abort()` block?
+(everything from the first text up to and including `builder.commit`) -/
+def inTry (texts : List Key) (k : Nat) : Bool := decide (1 ≤ k) && decide (k ≤ (groupOps texts).length + 1)
+
+/-- run the commit; returns the final state and whether the commit raised -/
+def runCommit (new : Rev) (texts : List Key) (bound : Bool) (fault : Option Fault) (s : PState) : PState × Bool :=
+  let prog := program texts bound
+  match fault with
+  | none => (prog.foldl (effect new) s, false)
+  | some f =>
+    if f.k < prog.length then
+      let s' := (prog.take f.executed).foldl (effect new) s
+      (if inTry texts f.k then abortGroup s' else s', true)
+    else (prog.foldl (effect new) s, false)      -- the fault point is never reached
 
 end BreezyVerif.C01
